@@ -61,12 +61,13 @@ fn onoff(b: bool) -> &'static str {
 enum Outcome {
     Panic(Trapped),
     Refused(String),
-    /// decided, written (None = nothing decodable was written), error from the set call
-    Decided(u8, Option<bool>, Option<String>),
+    /// decided, written (None = nothing decodable was written), error from the set call,
+    /// state left on the chip after the rest of the prepare flow (packet parameters, channel)
+    Decided(u8, Option<bool>, Option<String>, Option<bool>),
 }
 
 /// Drive one driver: decide, program, decode.
-fn drive<RK: RadioKind>(rk: &mut RK, bus: &Bus, sfi: usize, bwi: usize, cri: usize, freq: u32, decode: fn(&Chip) -> Option<bool>) -> Outcome {
+fn drive<RK: RadioKind>(rk: &mut RK, bus: &Bus, sfi: usize, bwi: usize, cri: usize, freq: u32, decode: fn(&Chip) -> Option<bool>, pkt: (u16, bool, u8, bool, bool)) -> Outcome {
     let r = trap(|| rk.create_modulation_params(SFS[sfi], BWS[bwi], CRS[cri], freq));
     let mp = match r {
         Err(t) => return Outcome::Panic(t),
@@ -80,7 +81,22 @@ fn drive<RK: RadioKind>(rk: &mut RK, bus: &Bus, sfi: usize, bwi: usize, cri: usi
         Err(t) => Outcome::Panic(t),
         Ok(res) => {
             let w = decode(&bus.chip());
-            Outcome::Decided(decided, w, res.err().map(|e| format!("{:?}", e)))
+            // the rest of what LoRa::prepare_for_tx / prepare_for_rx do after the modulation
+            // parameters: the bit must still be there when the chip transmits or listens
+            let after = if res.is_ok() {
+                let r = trap(|| {
+                    let pp = rk.create_packet_params(pkt.0, pkt.1, pkt.2, pkt.3, pkt.4, &mp)?;
+                    block_on(rk.set_packet_params(&pp))?;
+                    block_on(rk.set_channel(freq))
+                });
+                match r {
+                    Ok(Ok(())) => decode(&bus.chip()),
+                    _ => None,
+                }
+            } else {
+                None
+            };
+            Outcome::Decided(decided, w, res.err().map(|e| format!("{:?}", e)), after)
         }
     }
 }
@@ -183,9 +199,10 @@ impl Monitor for C15 {
             let (ncr, nfreq) = if col.tier == Tier::Sanitizer { (1, 1) } else { (4, 2) };
             for cri in 0..ncr {
                 for &freq in FREQS[..nfreq].iter() {
+                    let pkt = (rng.range(6, 20) as u16, rng.bool(), rng.range(1, 256) as u8, rng.bool(), rng.bool());
                     let out = if imp == 0 {
                         match trap(|| BaseBandModulationParams::new(SFS[sfi], BWS[bwi], CRS[cri]).ldro) {
-                            Ok(l) => Outcome::Decided(l as u8, None, None),
+                            Ok(l) => Outcome::Decided(l as u8, None, None, None),
                             Err(t) => Outcome::Panic(t),
                         }
                     } else {
@@ -193,31 +210,31 @@ impl Monitor for C15 {
                             1 => {
                                 let (mut rk, bus) = new_sx1261();
                                 randomise_regs(&bus, rng);
-                                drive(&mut rk, &bus, sfi, bwi, cri, freq, dec_sx126x)
+                                drive(&mut rk, &bus, sfi, bwi, cri, freq, dec_sx126x, pkt)
                             }
                             2 => {
                                 let (mut rk, bus) = new_sx1262();
                                 randomise_regs(&bus, rng);
-                                drive(&mut rk, &bus, sfi, bwi, cri, freq, dec_sx126x)
+                                drive(&mut rk, &bus, sfi, bwi, cri, freq, dec_sx126x, pkt)
                             }
                             3 => {
                                 let (mut rk, bus) = new_stm32wl(true);
                                 randomise_regs(&bus, rng);
-                                drive(&mut rk, &bus, sfi, bwi, cri, freq, dec_sx126x)
+                                drive(&mut rk, &bus, sfi, bwi, cri, freq, dec_sx126x, pkt)
                             }
                             4 => {
                                 let (mut rk, bus) = new_sx1272(false);
                                 randomise_regs(&bus, rng);
-                                drive(&mut rk, &bus, sfi, bwi, cri, freq, dec_sx1272)
+                                drive(&mut rk, &bus, sfi, bwi, cri, freq, dec_sx1272, pkt)
                             }
                             5 => {
                                 let (mut rk, bus) = new_sx1276(false);
                                 randomise_regs(&bus, rng);
-                                drive(&mut rk, &bus, sfi, bwi, cri, freq, dec_sx1276)
+                                drive(&mut rk, &bus, sfi, bwi, cri, freq, dec_sx1276, pkt)
                             }
                             _ => {
                                 let (mut rk, bus) = new_lr1110(lora_phy::lr1110::PaSelection::Lp);
-                                drive(&mut rk, &bus, sfi, bwi, cri, freq, dec_lr11xx)
+                                drive(&mut rk, &bus, sfi, bwi, cri, freq, dec_lr11xx, pkt)
                             }
                         }
                     };
@@ -236,7 +253,7 @@ impl Monitor for C15 {
                             col.event(&format!("refused:{}", name));
                             col.event(&format!("refused:{}:{}", name, e));
                         }
-                        Outcome::Decided(d, written, set_err) => {
+                        Outcome::Decided(d, written, set_err, after) => {
                             let decided = d != 0;
                             seen.push(decided);
                             col.eval(&format!("{}|{}", cell, name));
@@ -245,6 +262,15 @@ impl Monitor for C15 {
                                 viol(col, &format!("C15|decision|{}|impl={} ref={}|{}", fam, onoff(decided), onoff(ref_true), cc), "LDRO decision differs from the 16.38 ms rule", || {
                                     json!({"input": input, "decided_raw": d, "reference": ref_true, "tsym_ms": ((1u64 << sf) * BW_DIV[bwi]) as f64 / 500.0})
                                 });
+                            }
+                            if let Some(a) = after {
+                                col.eval_n(1);
+                                col.event(&format!("after_packet_params:{}", name));
+                                if a != decided {
+                                    viol(col, &format!("C15|after-packet-params|{}|decided={} left={}|{}", name, onoff(decided), onoff(a), cc), "the LDRO setting no longer matches the decision after the packet parameters and channel were programmed (the prepare flow's next steps)", || {
+                                        json!({"input": input, "decided_raw": d, "left_on_chip": a, "packet_params": {"preamble": pkt.0, "implicit": pkt.1, "len": pkt.2, "crc": pkt.3, "iq_inverted": pkt.4}})
+                                    });
+                                }
                             }
                             if imp != 0 {
                                 col.eval_n(1);
